@@ -25,6 +25,9 @@ import (
 	"verif/harness/vh"
 )
 
+// hangLimit only bounds hangs: no verdict depends on something happening within a short time (see c10)
+const hangLimit = 25 * time.Second
+
 var (
 	childMode  = flag.String("child", "", "internal: run as worker")
 	skipPhases = flag.String("skip", "", "internal: comma-separated phases the worker leaves out")
@@ -187,6 +190,10 @@ func supervise(env *vh.Env, rep *vh.Report) {
 			"how": "the harness ran in a worker process which died with this runtime fatal in phase '" + phase + "'; the probe line says which operation (and history) it was executing"}
 		if tm != "" && msg != "" {
 			rep.Fail("property", tm+":fatal", fmt.Sprintf("%s brought the process down with an unrecoverable runtime error (%s) while the harness ran: %s", tm, msg, vh.Clip(marker, 160)), replay)
+		} else if msg == "" {
+			rep.Note("the worker ended without a report and without a crash (%v; last marker: %s): reduced coverage in this run", err, vh.Clip(marker, 120))
+			rep.Count("worker-cut-short")
+			break
 		} else {
 			rep.Fail("correspondence", "harness:worker-died", fmt.Sprintf("the worker ended without a report (%v; %s)", err, vh.Clip(msg+" "+marker, 200)), replay)
 		}
